@@ -154,6 +154,9 @@ UnOp(op, a) ==
 \* scopes: sequence of functions name -> value, innermost last
 Lookup(sc, n) == LET S == {i \in 1..Len(sc) : n \in DOMAIN sc[i]} IN
                  IF S = {} THEN Err("undefined") ELSE Ok(sc[CHOOSE i \in S : \A j \in S : j <= i][n])
+\* nesting of function calls: each call's scope records it under a name no program can spell
+MaxCalls == 24
+CallDepth(sc) == IF \E i \in 1..Len(sc) : "%depth" \in DOMAIN sc[i] THEN Lookup(sc, "%depth").v.v ELSE 0
 Defined(sc, n) == \E i \in 1..Len(sc) : n \in DOMAIN sc[i]
 SetVar(sc, n, v) == LET S == {i \in 1..Len(sc) : n \in DOMAIN sc[i]}
                         i == CHOOSE x \in S : \A j \in S : j <= x IN
@@ -226,6 +229,28 @@ ShortFloat(q) == LET a == IF q < 0 THEN -q ELSE q IN
 SortedFields(o) == LET idx == SelectSeq(KeyOrder, LAMBDA k : HasKey(o, k)) IN
                    [i \in 1..Len(idx) |-> [name |-> idx[i], v |-> GetKey(o, idx[i])]]
 
+\* ordering of strings by character code, for the characters in Alphabet (others: not modelled)
+Alphabet == " !#$%&'()*+,-./0123456789:;<=>?@ABCDEFGHIJKLMNOPQRSTUVWXYZ[]^_`abcdefghijklmnopqrstuvwxyz{|}~"
+InAlphabet(s) == \A i \in 1..Len(s) : IdxIn(Ch(s, i), Alphabet) > 0
+RECURSIVE StrLess(_, _)
+StrLess(s, t) == IF t = "" THEN FALSE
+                 ELSE IF s = "" THEN TRUE
+                 ELSE LET a == IdxIn(Ch(s, 1), Alphabet) b == IdxIn(Ch(t, 1), Alphabet) IN
+                      IF a # b THEN a < b ELSE StrLess(SubSeq(s, 2, Len(s)), SubSeq(t, 2, Len(t)))
+\* stable sort of the indices 1..n by a table of answers lt[i][j] ("i goes before j"): insertion after every element
+\* that is not greater
+RECURSIVE InsertIdx(_, _, _)
+InsertIdx(x, sorted, lt) == IF sorted = <<>> THEN <<x>>
+                            ELSE IF lt[x][Head(sorted)] THEN <<x>> \o sorted
+                            ELSE <<Head(sorted)>> \o InsertIdx(x, Tail(sorted), lt)
+RECURSIVE SortIdx(_, _)
+SortIdx(n, lt) == IF n = 0 THEN <<>> ELSE InsertIdx(n, SortIdx(n - 1, lt), lt)
+RECURSIVE FlatOnce(_)
+FlatOnce(es) == IF es = <<>> THEN <<>> ELSE (IF Head(es).k = "arr" THEN Head(es).e ELSE <<Head(es)>>) \o FlatOnce(Tail(es))
+RECURSIVE RevSeq(_)
+RevSeq(es) == IF es = <<>> THEN <<>> ELSE RevSeq(Tail(es)) \o <<Head(es)>>
+DelKey(o, n) == VObj(SelectSeq(o.f, LAMBDA x : x.name # n))
+
 (* ---- patterns of match expressions ----------------------------------------------------- *)
 \* MatchPat(p, v, b) = [ok, b]: whether v matches p and the bindings made (b: name -> value).  Bindings made by a
 \* pattern that fails later are dropped with the case's scope: every case starts from the enclosing scopes alone.
@@ -254,7 +279,7 @@ MatchFields(fs, o, b, i) ==
     ELSE LET r == MatchPat(fs[i].p, GetKey(o, fs[i].key), b) IN IF ~r.ok THEN r ELSE MatchFields(fs, o, r.b, i + 1)
 
 (* ---- expressions ---------------------------------------------------------------------- *)
-RECURSIVE Eval(_, _), EvalSeq(_, _, _), EvalFields(_, _, _), ExecBlock(_, _, _, _), EvalCases(_, _, _, _)
+RECURSIVE Eval(_, _), EvalSeq(_, _, _), EvalFields(_, _, _), ExecBlock(_, _, _, _), EvalCases(_, _, _, _), Each(_, _, _, _, _), SortCmp(_, _, _)
 \* A settled future: the outcome of the block, which ran on a snapshot of the scopes visible where it was
 \* spawned.  Blocks communicate with their parent only through await, so the outcome does not depend on
 \* when the block runs and the definition may run it at once.
@@ -319,7 +344,9 @@ Eval(e, sc) ==
                  IF S = {} THEN Err("undefined")
                  ELSE LET f == fs[CHOOSE i \in S : TRUE] IN
                       IF Len(av.v) > Len(f.params) THEN Err("type")        \* too many arguments; missing ones are null
-                      ELSE LET scope == [n \in {f.params[i] : i \in 1..Len(f.params)} |->
+                      ELSE IF CallDepth(sc) >= MaxCalls THEN Err("limit")      \* calls nested deeper than the model follows
+                      ELSE LET scope == ("%depth" :> VInt(CallDepth(sc) + 1)) @@
+                                        [n \in {f.params[i] : i \in 1..Len(f.params)} |->
                                           LET i == CHOOSE j \in 1..Len(f.params) : f.params[j] = n IN IF i <= Len(av.v) THEN av.v[i] ELSE VNull]
                                \* lexical scoping: the body sees its parameters and its own variables, never the caller's
                                r == ExecBlock(f.body, <<scope>>, MaxFuel, 1) IN
@@ -328,6 +355,37 @@ Eval(e, sc) ==
                              [] OTHER -> Err("loopctl")
       [] e.e = "pipe" ->      \* x |> f(a, ...) is f(x, a, ...): the value on the left is the first argument
             Eval([e |-> "fcall", fn |-> e.fn, as |-> <<e.x>> \o e.as], sc)
+      [] e.e = "callh" ->     \* array builtins; those that take a function are given the name of one the module declares
+            LET a == Eval(e.as[1], sc) IN
+            IF ~a.ok THEN a
+            ELSE IF a.v.k # (IF e.fn \in {"set", "remove"} THEN "obj" ELSE "arr") THEN Err("type")
+            ELSE IF e.f # "" /\ ~\E i \in 1..Len(Progs[pi].funcs) : Progs[pi].funcs[i].name = e.f THEN Err("undefined")
+            ELSE LET rest == EvalSeq(SubSeq(e.as, 2, Len(e.as)), sc, 1) IN
+                 IF ~rest.ok THEN rest
+                 ELSE LET g == rest.v
+                          xs == a.v.e
+                          IsI(i) == g[i].k = "int" /\ Sp(g[i]) = "" IN
+                 (CASE e.fn = "append" -> IF Len(xs) >= 2048 THEN Err("TOOBIG") ELSE Ok(VArr(Append(xs, g[1])))
+                   [] e.fn = "reverse" -> Ok(VArr(RevSeq(xs)))
+                   [] e.fn = "flat" -> LET r == FlatOnce(xs) IN IF Len(r) > 2048 THEN Err("TOOBIG") ELSE Ok(VArr(r))
+                   [] e.fn = "slice" ->      \* start below 0 is 0, end beyond the length is the length, an empty range is empty
+                        IF ~IsI(1) \/ ~IsI(2) THEN (IF g[1].k = "int" /\ g[2].k = "int" THEN Err("UNREP") ELSE Err("type"))
+                        ELSE LET st == IF g[1].v < 0 THEN 0 ELSE g[1].v
+                                 en == IF g[2].v > Len(xs) THEN Len(xs) ELSE g[2].v IN
+                             IF st > en THEN Ok(VArr(<<>>)) ELSE Ok(VArr(SubSeq(xs, st + 1, en)))
+                   [] e.fn = "set" -> IF g[1].k # "str" THEN Err("type") ELSE Ok(SetKey(a.v, g[1].v, g[2]))
+                   [] e.fn = "remove" -> IF g[1].k # "str" THEN Err("type") ELSE Ok(DelKey(a.v, g[1].v))
+                   [] e.fn = "sort" /\ e.f = "" ->     \* ascending, stable; integers, floats or strings, all of one kind
+                        IF Len(xs) <= 1 THEN Ok(a.v)
+                        ELSE IF \E i \in 1..Len(xs) : xs[i].k \notin {"int", "float", "str"} \/ xs[i].k # xs[1].k THEN Err("type")
+                        ELSE IF \E i \in 1..Len(xs) : Sp(xs[i]) # "" \/ (xs[i].k = "str" /\ ~InAlphabet(xs[i].v)) THEN Err("UNREP")
+                        ELSE LET n == Len(xs)
+                                 lt == [i \in 1..n |-> [j \in 1..n |-> IF xs[i].k = "str" THEN StrLess(xs[i].v, xs[j].v) ELSE Q(xs[i]) < Q(xs[j])]]
+                                 perm == SortIdx(n, lt) IN
+                             Ok(VArr([i \in 1..n |-> xs[perm[i]]]))
+                   [] e.fn = "sort" -> SortCmp(e.f, xs, sc)
+                   [] e.fn = "reduce" -> Each("reduce", e.f, xs, g[1], sc)
+                   [] OTHER -> Each(e.fn, e.f, xs, VNull, sc))
       [] e.e = "calln" ->     \* string builtins (arguments evaluated left to right, then checked)
             LET av == EvalSeq(e.as, sc, 1) IN
             IF ~av.ok THEN av
@@ -397,6 +455,51 @@ Eval(e, sc) ==
                         IF a.v.k = "int" THEN Ok(VInt(Abs(a.v.v)))
                         ELSE IF a.v.k = "float" THEN Ok(VFloat(Abs(a.v.q)))
                         ELSE Err("type")
+
+\* the function named f applied to values: as a call f(v1, ..) written in the program
+ApplyExpr(f, vs) == [e |-> "fcall", fn |-> f, as |-> [i \in 1..Len(vs) |-> [e |-> "lit", v |-> vs[i]]]]
+\* map / filter / find / some / every / reduce over xs, left to right; acc carries the result so far.  A callback that
+\* fails makes the whole call fail; filter, find, some keep an element when the callback answers true, every stops at
+\* the first answer that is not true
+ParamCount(f) == LET fs == Progs[pi].funcs IN Len(fs[CHOOSE i \in 1..Len(fs) : fs[i].name = f].params)
+Each(kind, f, xs, acc, sc) ==
+    IF ParamCount(f) # (IF kind = "reduce" THEN 2 ELSE 1) THEN Err("UNREP")      \* surplus and missing arguments of a callback: not modelled
+    ELSE
+    LET start == IF kind \in {"map", "filter"} /\ acc.k = "null" THEN VArr(<<>>) ELSE acc IN
+    IF xs = <<>> THEN (CASE kind \in {"map", "filter", "reduce"} -> Ok(start)
+                         [] kind = "find" -> Ok(VNull)
+                         [] kind = "some" -> Ok(VBool(FALSE))
+                         [] kind = "every" -> Ok(VBool(TRUE)))
+    ELSE LET x == Head(xs)
+             r == Eval(ApplyExpr(f, IF kind = "reduce" THEN <<start, x>> ELSE <<x>>), sc)
+             yes == r.ok /\ r.v.k = "bool" /\ r.v.v IN
+         IF ~r.ok THEN r
+         ELSE CASE kind = "map" -> Each(kind, f, Tail(xs), VArr(Append(start.e, r.v)), sc)
+                [] kind = "filter" -> Each(kind, f, Tail(xs), IF yes THEN VArr(Append(start.e, x)) ELSE start, sc)
+                [] kind = "reduce" -> Each(kind, f, Tail(xs), r.v, sc)
+                [] kind = "find" -> IF yes THEN Ok(x) ELSE Each(kind, f, Tail(xs), acc, sc)
+                [] kind = "some" -> IF yes THEN Ok(VBool(TRUE)) ELSE Each(kind, f, Tail(xs), acc, sc)
+                [] kind = "every" -> IF ~yes THEN Ok(VBool(FALSE)) ELSE Each(kind, f, Tail(xs), acc, sc)
+\* sort with a comparator f(a, b): a goes first when f answers a negative number or true.  The table of answers is taken
+\* first (any failure or other kind of answer fails the call); the order is only defined when the answers form an ordering
+SortCmp(f, xs, sc) ==
+    IF ParamCount(f) # 2 THEN Err("UNREP")
+    ELSE IF Len(xs) <= 1 THEN Ok(VArr(xs))
+    ELSE LET n == Len(xs)
+             ans == [i \in 1..n |-> [j \in 1..n |-> Eval(ApplyExpr(f, <<xs[i], xs[j]>>), sc)]]
+             bad == \E i, j \in 1..n : ~ans[i][j].ok \/ ans[i][j].v.k \notin {"int", "float", "bool"} \/ Sp(ans[i][j].v) # ""
+             lt(i, j) == LET v == ans[i][j].v IN IF v.k = "bool" THEN v.v ELSE Q(v) < 0
+             ltm == [i \in 1..n |-> [j \in 1..n |-> lt(i, j)]]
+             ordering == /\ \A i \in 1..n : ~lt(i, i)
+                         /\ \A i, j \in 1..n : ~(lt(i, j) /\ lt(j, i))
+                         /\ \A i, j, k \in 1..n : lt(i, j) /\ lt(j, k) => lt(i, k)
+                         /\ \A i, j, k \in 1..n : (~lt(i, j) /\ ~lt(j, i) /\ ~lt(j, k) /\ ~lt(k, j)) => (~lt(i, k) /\ ~lt(k, i)) IN
+         \* not every pair is asked: a failure is certain only when every pair of different elements fails
+         IF bad THEN (IF \A i, j \in 1..n : i = j \/ (~ans[i][j].ok /\ ans[i][j].err \notin {"UNREP", "TOOBIG"}) THEN Err(ans[1][2].err)
+                      ELSE IF \A i, j \in 1..n : i = j \/ (ans[i][j].ok /\ ans[i][j].v.k \notin {"int", "float", "bool"}) THEN Err("type")
+                      ELSE Err("UNREP"))
+         ELSE IF ~ordering THEN Err("UNREP")
+         ELSE LET perm == SortIdx(n, ltm) IN Ok(VArr([i \in 1..n |-> xs[perm[i]]]))
 
 EvalSeq(es, sc, i) ==
     IF i > Len(es) THEN Ok(<<>>)
@@ -593,6 +696,8 @@ SrcE(e, min) ==
       [] e.e = "call" -> e.fn \o "(" \o SrcE(e.a, 0) \o ")"
       [] e.e = "calln" -> e.fn \o "(" \o SrcList(e.as, 1) \o ")"
       [] e.e = "fcall" -> e.fn \o "(" \o SrcList(e.as, 1) \o ")"
+      [] e.e = "callh" -> e.fn \o "(" \o SrcE(e.as[1], 0) \o (IF e.f = "" THEN "" ELSE ", " \o e.f)
+                          \o (IF Len(e.as) > 1 THEN ", " \o SrcList(SubSeq(e.as, 2, Len(e.as)), 1) ELSE "") \o ")"
       [] e.e = "pipe" -> Wrap(SrcE(e.x, IF e.x.e = "pipe" THEN 0 ELSE 1) \o " |> " \o e.fn \o (IF e.bare THEN "" ELSE "(" \o SrcList(e.as, 1) \o ")"), min > 0)
       [] e.e = "match" -> "match " \o SrcE(e.x, 40) \o " {\n" \o SrcMCases(e.cases, 1) \o "    }"
       [] e.e = "async" -> "async {\n" \o SrcB(e.b, 3, 1) \o "    }"
